@@ -5,11 +5,23 @@ P  Lean theorems over the reals (lean/MjProof/Props/C07.lean) about the executab
 T  translator regeneration + bitwise translation validation of those kernels; bitwise correspondence of the Lean model
    (Float) with mj_kinematics (+ mj_local2Global frames, fixed cameras), mj_integratePos and mj_differentiatePos of the
    tree build on generated kinematic trees.
+   The sparse dof chains (lean/MjProof/Model/DofChain.lean: mj_mergeChain with and without flg_skipcommon) are proved to
+   hold exactly the dofs moving either / exactly one of the two bodies, and tied to the C function by exact integer
+   correspondence on every generated tree.
 S  property oracle on the real engine alone (harness/c/c07_oracle.c): orthonormality and matrix<->quaternion agreement
    of all frames; every Jacobian entry point (mj_jac at random body points, mj_jacBody, mj_jacBodyCom, mj_jacSubtreeCom,
    mj_jacGeom, mj_jacSite, mj_jacSparse) against central differences of the engine's own kinematics along
    mj_integratePos perturbations; object velocities and cvel = J qvel; mj_jacDot against central differences of J along
    the velocity; mj_differentiatePos o mj_integratePos = id and back.
+   Constraint rows: the generated trees carry connect / weld (body and site semantic) / joint / tendon equalities, joint
+   (slide, hinge, ball) and tendon limits, dof and tendon friction loss, fixed and spatial tendons (pulleys, wrapping
+   geoms) and contacts of every condim; efc_J is dumped after mj_fwdPosition in dense AND sparse storage and for the
+   pyramidal AND elliptic cone and judged: d(efc_pos)/dq along mj_integratePos = efc_J for every position-type row
+   (equalities, limits), ten_J = d(ten_length)/dq, contact rows = contact frame x (mj_jac(body2, pos) - mj_jac(body1,
+   pos)) with the normal row = d(dist)/dq for smooth geometries, friction rows = dof unit vector / ten_J, dense = sparse
+   row by row, sparse layout (rownnz / rowadr / colind / nJ) consistent.  The two-body / multi-body entry points behind
+   those rows (mj_jacDifPair in all four dense / sparse x flg_skipcommon modes incl. the simple-body fast path,
+   mj_mergeChain, mj_jacSum, mj_jacPointAxis, mj_jacDotSparse) are also called directly and compared with mj_jac / mj_jacDot.
 """
 import json
 import math
@@ -17,12 +29,12 @@ import math
 from checks import common, kernelval
 from checks import c06 as G          # shared tree generator / parsing helpers (same owner)
 from gen.enums import E
-from gen.models import unit_quat
+from gen.models import unit_quat, fmt
 
 META = {
     "technique": "Lean 4 proofs over the reals about a hand-written executable model of mj_kinematics assembled from c2lean-translated quaternion kernels (induction over the topologically ordered body list with the invariant 'unit quaternion, matrix = matrix of the quaternion'; HasDerivAt for the single-joint Jacobian columns via closed forms of the kernels, ring / linear_combination with the unit-norm hypotheses) + bitwise differential correspondence of the model (Float) with the compiled engine + finite-difference property oracle on the real engine",
-    "text": "Proved for every kinematic tree given as a topologically ordered body list, every joint stack (slide / hinge / ball, or a lone free joint), mocap bodies and every configuration with unit joint / body quaternions and unit hinge axes: every body frame computed by the model of mj_kinematics1 has a unit quaternion, its matrix is mju_quat2Mat of that quaternion, and that matrix is a proper rotation (R R^T = R^T R = I, det R = 1); inertial, geom, site and fixed-camera frames of mj_local2Global are proper rotations in every mjtSameFrame case. Single-joint Jacobian columns: for a hinge, d/dtheta of the world position of any body-fixed point (computed by the model's joint step) is xaxis x (point - xanchor) with exactly the xaxis / xanchor that mj_kinematics stores (HasDerivAt, any pose before the joint with a unit quaternion, unit joint axis); for a slide it is xaxis. mj_differentiatePos inverts mj_integratePos: exactly for slide and hinge joints (any dt != 0); for ball and free joints under the no-wrap conditions of C24.subQuat_quatIntegrate (unit quaternion, |w| >= mjMINVAL, |dt||w| <= the mjPI literal, |sin(dt|w|/2)| >= mjMINVAL) [_partial].",
-    "note": "NOT proved, decided by the finite-difference oracle on the real engine only: the whole-tree chain rule (that every Jacobian entry point, dense or sparse, equals the derivative of the corresponding position / orientation along mj_integratePos), cvel = J qvel / mj_objectVelocity, mj_jacDot, mj_comPos (subtree_com, cdof). Constraint-row Jacobians (efc_J) belong to C11/C12 and are not checked here. The model uses the mju_ quaternion kernels where mj_kinematics calls the textually identical mji_ inline copies (listing the mji_ copies as kernels would change the generated shape other properties' proofs rely on); a divergence of an inline copy is caught by the bitwise FK correspondence. Tracking / targeting camera modes, lights, sleeping are not modelled. Reals vs doubles: rounding is outside the proofs.",
+    "text": "Proved for every kinematic tree given as a topologically ordered body list, every joint stack (slide / hinge / ball, or a lone free joint), mocap bodies and every configuration with unit joint / body quaternions and unit hinge axes: every body frame computed by the model of mj_kinematics1 has a unit quaternion, its matrix is mju_quat2Mat of that quaternion, and that matrix is a proper rotation (R R^T = R^T R = I, det R = 1); inertial, geom, site and fixed-camera frames of mj_local2Global are proper rotations in every mjtSameFrame case. Single-joint Jacobian columns: for a hinge, d/dtheta of the world position of any body-fixed point (computed by the model's joint step) is xaxis x (point - xanchor) with exactly the xaxis / xanchor that mj_kinematics stores (HasDerivAt, any pose before the joint with a unit quaternion, unit joint axis); for a slide it is xaxis. Sparse dof chains: for every dof parent map with parent index < dof index, the model of mj_mergeChain returns a strictly increasing chain that contains exactly the dofs moving the first or the second body and, with flg_skipcommon, exactly the dofs moving one body but not the other (bodyChain: exactly the dofs moving the body); on a dof shared by both bodies the two translational point-Jacobian columns differ by w x (pos2 - pos1), so dropping shared dofs is lossless iff the points coincide or the dof is translational. mj_differentiatePos inverts mj_integratePos: exactly for slide and hinge joints (any dt != 0); for ball and free joints under the no-wrap conditions of C24.subQuat_quatIntegrate (unit quaternion, |w| >= mjMINVAL, |dt||w| <= the mjPI literal, |sin(dt|w|/2)| >= mjMINVAL) [_partial].",
+    "note": "NOT proved, decided by the finite-difference oracle on the real engine only: the whole-tree chain rule (that every Jacobian entry point, dense or sparse, equals the derivative of the corresponding position / orientation along mj_integratePos), cvel = J qvel / mj_objectVelocity, mj_jacDot, mj_comPos (subtree_com, cdof). Constraint rows (efc_J dense and sparse, pyramidal and elliptic; equalities connect / weld / joint / tendon, joint and tendon limits, friction loss, contacts, ten_J) are decided by the same kind of oracle: central differences of efc_pos / ten_length / contact distance along mj_integratePos, contact rows against the contact frame applied to mj_jac differences, dense against sparse storage; that the call sites of the engine pass the right flg_skipcommon / points to the proved chain routines is NOT proved, only decided by this oracle. Not generated: flex constraints (mjEQ_FLEX / FLEXVERT / FLEXSTRAIN, flex contacts through mj_jacSum are only reached by calling mj_jacSum directly), tendon side sites, jacobian=auto (sparse is forced instead), sleeping. The model uses the mju_ quaternion kernels where mj_kinematics calls the textually identical mji_ inline copies (listing the mji_ copies as kernels would change the generated shape other properties' proofs rely on); a divergence of an inline copy is caught by the bitwise FK correspondence. Tracking / targeting camera modes, lights, sleeping are not modelled. Reals vs doubles: rounding is outside the proofs.",
 }
 
 P = "MjProof.C07."
@@ -32,6 +44,8 @@ THEOREMS = [P + t for t in (
     "rot_eq_mat", "cross_mat", "uvec_hasDerivAt", "hinge_column_is_derivative", "slide_column_is_derivative",
     "differentiate_integrate_slide", "differentiate_integrate_hinge",
     "differentiate_integrate_ball_partial", "differentiate_integrate_free_partial",
+    "mergeChain_sorted", "mergeChain_mem", "mergeChain_skipcommon_mem", "bodyChain_mem",
+    "common_dof_column_difference", "common_dof_column_cancels",
 )]
 
 KERNELS = ["mju_quat2Mat", "mju_mulQuat", "mju_rotVecQuat", "mju_axisAngle2Quat", "mju_normalize4", "mju_mulMatVec3",
@@ -93,6 +107,278 @@ def rot_fd(Rp, Rm, eps):
     return [(A[7] - A[5]) / (4 * eps), (A[2] - A[6]) / (4 * eps), (A[3] - A[1]) / (4 * eps)]
 
 
+
+# ------------------------------------------------------------------------------------------------ constraint scenes
+# The property quantifies over "constraint rows, sparse or dense" as well: the generated trees are completed with every
+# constraint kind that can be built through harness/mjbuild.h (no flex): connect / weld (body and site semantic) / joint /
+# tendon equalities, joint (slide, hinge, ball) and tendon limits, dof and tendon friction loss, fixed and spatial tendons
+# (sites, pulleys, wrapping spheres / cylinders) and contacts of every condim between primitive geoms.
+CN = {k: E("mjCNSTR_" + k) for k in ("EQUALITY", "FRICTION_DOF", "FRICTION_TENDON", "LIMIT_JOINT", "LIMIT_TENDON",
+                                     "CONTACT_FRICTIONLESS", "CONTACT_PYRAMIDAL", "CONTACT_ELLIPTIC")}
+CN_NAME = {v: k for k, v in CN.items()}
+
+
+def body_relation(t, a, b):
+    """how the dof chains of bodies a, b (indices into t.bodies + 1, 0 = world) relate"""
+    def moving_ancestors(x):
+        out = []
+        while x:
+            if any(j["body"] == t.bodies[x - 1]["name"] for j in t.joints):
+                out.append(x)
+            x = t.bodies[x - 1]["parent"]
+        return out
+    A, B = moving_ancestors(a), moving_ancestors(b)
+    if not A or not B:
+        return "one-side-fixed" if (A or B) else "both-fixed"
+    common = set(A) & set(B)
+    if not common:
+        return "different-trees"
+    if set(A) <= set(B) or set(B) <= set(A):
+        return "ancestor-descendant"
+    return "shared-moving-ancestor"
+
+
+def add_constraints(rng, t, hist):
+    """post-processes the lines of a c06 tree: enables constraints and appends constraint elements; returns the number added"""
+    L = t.lines.append
+    t.lines[:] = [l for l in t.lines if not l.startswith("option disableflags")]
+    hmax = 0
+    bh = {0: 0}
+    for l in t.lines:
+        w = l.split()
+        if w[0] in ("body", "joint", "freejoint", "geom", "site", "camera", "tendon", "actuator", "equality", "light"):
+            hmax = max(hmax, int(w[1]))
+        if w[0] == "name" and w[2].startswith("b") and w[2][1:].isdigit():
+            bh[int(w[2][1:])] = int(w[1])
+    h = [hmax]
+
+    def newh():
+        h[0] += 1
+        return h[0]
+
+    def bump(k, n=1):
+        hist[k] = hist.get(k, 0) + n
+    nb = len(t.bodies)
+    n_added = 0
+    margin_choice = lambda: rng.choice((100.0, 100.0, 0.4, 0.0))
+    # ---- joint limits and friction loss
+    for j in t.joints:
+        if j["type"] in ("hinge", "slide") and rng.random() < 0.3:
+            lo = rng.uniform(-2.0, 0.5)
+            L("set %d limited 1" % j["handle"])
+            L("set %d range %r %r" % (j["handle"], lo, lo + rng.uniform(0.2, 2.5)))
+            L("set %d margin %r" % (j["handle"], margin_choice()))
+            bump("limit:" + j["type"])
+            n_added += 1
+        elif j["type"] == "ball" and rng.random() < 0.5:
+            L("set %d limited 1" % j["handle"])
+            L("set %d range 0 %r" % (j["handle"], rng.uniform(0.3, 2.5)))
+            L("set %d margin %r" % (j["handle"], margin_choice()))
+            bump("limit:ball")
+            n_added += 1
+        if rng.random() < 0.15:
+            L("set %d frictionloss %r" % (j["handle"], rng.uniform(0.01, 2.0)))
+            bump("frictionloss:" + j["type"])
+            n_added += 1
+    # ---- tendons (fixed, spatial with sites / pulleys / wrapping geoms), with limits and friction loss
+    sj = [j for j in t.joints if j["type"] in ("hinge", "slide")]
+    tendons = []
+
+    def finish_tendon(th, kind):
+        name = "ct%d" % (len(tendons) + 1)
+        L("name %d %s" % (th, name))
+        if rng.random() < 0.6:
+            lo = rng.uniform(-1.0, 1.0)
+            L("set %d limited 1" % th)
+            L("set %d range %r %r" % (th, lo, lo + rng.uniform(0.1, 2.0)))
+            L("set %d margin %r" % (th, margin_choice()))
+            bump("limit:tendon-" + kind)
+        if rng.random() < 0.4:
+            L("set %d frictionloss %r" % (th, rng.uniform(0.01, 2.0)))
+            bump("frictionloss:tendon-" + kind)
+        tendons.append(name)
+        bump("tendon:" + kind)
+    if len(sj) >= 1:
+        for _ in range(rng.choice((0, 1, 1, 2))):
+            th = newh()
+            L("tendon %d" % th)
+            for j in rng.sample(sj, min(len(sj), rng.choice((1, 2, 2, 3)))):
+                L("wrap %d joint %s %r" % (th, j["name"], rng.choice((1.0, -1.0, rng.uniform(-2, 2) or 0.5))))
+            finish_tendon(th, "fixed")
+            n_added += 1
+    if len(t.sites) >= 2:
+        for _ in range(rng.choice((0, 1, 1, 2))):
+            th = newh()
+            L("tendon %d" % th)
+            ss = rng.sample(t.sites, min(len(t.sites), rng.choice((2, 2, 3, 4))))
+            kind = "spatial"
+            # a pulley splits the tendon into branches; every branch starts and ends with a site
+            pulley_at = 2 if (len(ss) == 4 and rng.random() < 0.5) else None
+            for k, s in enumerate(ss):
+                if k == pulley_at:
+                    L("wrap %d pulley %r" % (th, rng.choice((1.0, 2.0, 0.5))))
+                    kind += "+pulley"
+                L("wrap %d site %s" % (th, s["name"]))
+                if k + 1 < len(ss) and k + 1 != pulley_at and rng.random() < 0.3:
+                    # wrapping sphere / cylinder on a random body between two sites (no side site)
+                    gh = newh()
+                    gn = "wg%d" % gh
+                    bi = rng.randint(0, nb)
+                    gt = rng.choice(("SPHERE", "CYLINDER"))
+                    L("geom %d %d" % (gh, bh[bi]))
+                    L("name %d %s" % (gh, gn))
+                    L("set %d type %d" % (gh, E("mjGEOM_" + gt)))
+                    L("set %d size %s" % (gh, fmt([rng.uniform(0.03, 0.15)] + ([rng.uniform(0.1, 0.3)] if gt == "CYLINDER" else []))))
+                    L("set %d pos %s" % (gh, fmt([rng.uniform(-0.2, 0.2) for _ in range(3)])))
+                    L("set %d quat %s" % (gh, fmt(unit_quat(rng))))
+                    L("set %d contype 0" % gh)
+                    L("set %d conaffinity 0" % gh)
+                    L("set %d density 10" % gh)
+                    t.geoms.append({"name": gn, "body": bi})
+                    L("wrap %d geom %s ~" % (th, gn))
+                    if "wrap" not in kind:
+                        kind += "-wrap"
+            finish_tendon(th, kind)
+            n_added += 1
+    # ---- equalities
+    def pick_relation(cands):
+        # the relations differ in which dofs the two chains share; shared moving ancestors are the rarest in random trees
+        w = {"shared-moving-ancestor": 5, "ancestor-descendant": 2, "different-trees": 2, "one-side-fixed": 1, "both-fixed": 1}
+        ks = sorted(cands)
+        return rng.choices(ks, weights=[w[k] for k in ks])[0]
+
+    def pick_pair():
+        """two different bodies (0 = world allowed as the second), preferring structurally different relations"""
+        cands = {}
+        for a in range(1, nb + 1):
+            for b in range(0, nb + 1):
+                if a != b:
+                    cands.setdefault(body_relation(t, a, b), []).append((a, b))
+        cands.pop("both-fixed", None)
+        if not cands:
+            return None
+        rel = pick_relation(cands)
+        a, b = rng.choice(cands[rel])
+        if b and rng.random() < 0.5:
+            a, b = b, a
+        return a, b, rel
+
+    def site_pair():
+        if len(t.sites) < 2:
+            return None
+        cands = {}
+        for x in t.sites:
+            for y in t.sites:
+                if x is not y:
+                    cands.setdefault(body_relation(t, x["body"], y["body"]), []).append((x, y))
+        rel = pick_relation(cands)
+        x, y = rng.choice(cands[rel])
+        return x, y, rel
+    bname = lambda b: "world" if b == 0 else t.bodies[b - 1]["name"]
+    neq = rng.choice((0, 1, 2, 2, 3, 4)) if nb >= 1 else 0
+    for _ in range(neq):
+        kind = rng.choice(("connect", "connect", "weld", "weld", "connect-site", "weld-site", "joint", "tendon"))
+        eh = None
+        if kind in ("connect", "weld"):
+            pr = pick_pair()
+            if not pr:
+                continue
+            a, b, rel = pr
+            eh = newh()
+            L("equality %d" % eh)
+            L("set %d type %d" % (eh, E("mjEQ_" + kind.upper())))
+            L("set %d objtype %d" % (eh, E("mjOBJ_BODY")))
+            L("set %d name1 %s" % (eh, bname(a)))
+            if b or rng.random() < 0.5:
+                L("set %d name2 %s" % (eh, bname(b)))
+            data = [0.0] * 11
+            data[0:3] = [rng.uniform(-0.4, 0.4) for _ in range(3)] if rng.random() < 0.85 else [0.0, 0.0, 0.0]
+            if kind == "weld":
+                if rng.random() < 0.6:
+                    data[3:6] = [rng.uniform(-0.4, 0.4) for _ in range(3)]
+                    data[6:10] = unit_quat(rng)
+                data[10] = rng.choice((1.0, 1.0, 0.3, 2.5, 0.0))
+            L("set %d data %s" % (eh, fmt(data)))
+            bump("eq:%s:%s" % (kind, rel))
+        elif kind in ("connect-site", "weld-site"):
+            pr = site_pair()
+            if not pr:
+                continue
+            x, y, rel = pr
+            eh = newh()
+            L("equality %d" % eh)
+            L("set %d type %d" % (eh, E("mjEQ_" + kind.split("-")[0].upper())))
+            L("set %d objtype %d" % (eh, E("mjOBJ_SITE")))
+            L("set %d name1 %s" % (eh, x["name"]))
+            L("set %d name2 %s" % (eh, y["name"]))
+            data = [0.0] * 11
+            data[10] = rng.choice((1.0, 0.3, 2.5))
+            L("set %d data %s" % (eh, fmt(data)))
+            bump("eq:%s:%s" % (kind, rel))
+        elif kind == "joint" and sj:
+            js = rng.sample(sj, min(len(sj), rng.choice((1, 2, 2))))
+            eh = newh()
+            L("equality %d" % eh)
+            L("set %d type %d" % (eh, E("mjEQ_JOINT")))
+            L("set %d name1 %s" % (eh, js[0]["name"]))
+            if len(js) > 1:
+                L("set %d name2 %s" % (eh, js[1]["name"]))
+            L("set %d data %s" % (eh, fmt([rng.uniform(-1, 1) * rng.choice((0, 1, 1)) for _ in range(5)] + [0.0] * 6)))
+            bump("eq:joint:%d" % len(js))
+        elif kind == "tendon" and tendons:
+            ts = rng.sample(tendons, min(len(tendons), rng.choice((1, 2, 2))))
+            eh = newh()
+            L("equality %d" % eh)
+            L("set %d type %d" % (eh, E("mjEQ_TENDON")))
+            L("set %d name1 %s" % (eh, ts[0]))
+            if len(ts) > 1:
+                L("set %d name2 %s" % (eh, ts[1]))
+            L("set %d data %s" % (eh, fmt([rng.uniform(-1, 1) * rng.choice((0, 1, 1)) for _ in range(5)] + [0.0] * 6)))
+            bump("eq:tendon:%d" % len(ts))
+        if eh is not None:
+            L("name %d ceq%d" % (eh, eh))
+            n_added += 1
+    # ---- colliding geoms (large margins: contacts exist at random configurations) and a ground plane
+    ncg = rng.choice((0, 0, 2, 3, 4)) if nb >= 1 else 0
+    movers = [b for b in range(1, nb + 1) if body_relation(t, b, 0) != "both-fixed"]
+    if ncg and movers:
+        hosts = [rng.choice(movers)] + [rng.randint(1, nb) for _ in range(ncg - 1)]
+        for bi in hosts:
+            gh = newh()
+            gn = "cg%d" % gh
+            gt = rng.choice(("SPHERE", "SPHERE", "CAPSULE", "CAPSULE", "BOX", "ELLIPSOID", "CYLINDER"))
+            a, b, c = (rng.uniform(0.04, 0.2) for _ in range(3))
+            L("geom %d %d" % (gh, bh[bi]))
+            L("name %d %s" % (gh, gn))
+            L("set %d type %d" % (gh, E("mjGEOM_" + gt)))
+            L("set %d size %s" % (gh, fmt({"SPHERE": [a], "CAPSULE": [a, b], "CYLINDER": [a, b]}.get(gt, [a, b, c]))))
+            L("set %d pos %s" % (gh, fmt([rng.uniform(-0.3, 0.3) for _ in range(3)])))
+            L("set %d quat %s" % (gh, fmt(unit_quat(rng))))
+            L("set %d condim %d" % (gh, rng.choice((1, 3, 3, 4, 6))))
+            L("set %d friction %r %r %r" % (gh, rng.uniform(0.2, 1.5), rng.uniform(0.001, 0.05), rng.uniform(0.0001, 0.01)))
+            L("set %d margin %r" % (gh, rng.choice((10.0, 10.0, 0.5))))
+            L("set %d density 50" % gh)
+            t.geoms.append({"name": gn, "body": bi})
+            bump("contact-geom:" + gt.lower())
+            n_added += 1
+        if rng.random() < 0.5:
+            gh = newh()
+            L("geom %d 0" % gh)
+            L("name %d cgplane" % gh)
+            L("set %d type %d" % (gh, E("mjGEOM_PLANE")))
+            L("set %d size 2 2 0.1" % gh)
+            L("set %d pos 0 0 %r" % (gh, rng.uniform(-1.5, 0.0)))
+            if rng.random() < 0.5:
+                L("set %d quat %s" % (gh, fmt(unit_quat(rng))))
+            L("set %d condim %d" % (gh, rng.choice((1, 3, 4, 6))))
+            L("set %d margin 10" % gh)
+            t.geoms.append({"name": "cgplane", "body": 0})
+            bump("contact-geom:plane")
+    t.ncons = n_added
+    t.has_contact_geoms = bool(ncg and movers)
+    return n_added
+
+
 # ------------------------------------------------------------------------------------------------ op streams
 def state_block(rng, tree, thorough, maxfd):
     """harness lines for one (model already loaded) state; returns (lines, meta)"""
@@ -145,6 +431,45 @@ def state_block(rng, tree, thorough, maxfd):
     add("vel", kind="vel")
     for b, r in pts:
         add("jacdot %d %s" % (b, " ".join(map(fb, r))), kind="jacdot", body=b)
+    # ---- (b') the two-body / multi-body Jacobian entry points behind the constraint rows, called directly
+    nfun = 6 if thorough else 3
+    for _ in range(nfun if nb >= 2 else 0):
+        b1, b2 = rng.sample(range(nb), 2)        # the engine never pairs a body with itself (the simple-body chain would repeat dofs)
+        r1, r2 = ([rng.uniform(-0.5, 0.5) for _ in range(3)] for _ in range(2))
+        for same in (0, 1):
+            for sp in (0, 1):
+                for skip in (0, 1):
+                    add("jacdif %d %d %s %s %d %d %d" % (b1, b2, " ".join(map(fb, r1)), " ".join(map(fb, r2)), same, sp, skip),
+                        kind="jacdif", b1=b1, b2=b2, same=same, sp=sp, skip=skip)
+    # mj_mergeChain against the Lean model (exact): every ordered body pair of small models, a sample of larger ones
+    allpairs = [(a, b) for a in range(nb) for b in range(nb)]
+    for a, b in (allpairs if len(allpairs) <= (64 if thorough else 16) else rng.sample(allpairs, 64 if thorough else 16)):
+        for skip in (0, 1):
+            add("chain %d %d %d" % (a, b, skip), kind="rec")
+    for jm in (0, 1):
+        add("opt jacobian %d" % jm, kind="set")
+        for _ in range(2 if thorough else 1):
+            k = rng.choice((1, 2, 3, 5))
+            bw = [(rng.randrange(nb), rng.choice((1.0, -1.0, rng.uniform(-2, 2)))) for _ in range(k)]
+            add("jacsum %d %s %d %s %d" % (k, " ".join("%d %s" % (b, fb(w)) for b, w in bw), rng.randrange(nb),
+                                          " ".join(fb(rng.uniform(-0.5, 0.5)) for _ in range(3)), rng.choice((0, 1))),
+                kind="jacsum", bw=bw, jm=jm)
+    add("opt jacobian 0", kind="set")
+    ax = [rng.gauss(0, 1) for _ in range(3)]
+    add("jacaxis %d %s %s" % (rng.randrange(nb), " ".join(fb(rng.uniform(-0.5, 0.5)) for _ in range(3)), " ".join(map(fb, ax))),
+        kind="jacaxis", axis=ax)
+    # ---- (b'') constraint rows at the base configuration: dense and sparse, both friction cones
+    ncons = getattr(tree, "ncons", 0)
+    if ncons:
+        cones = (0, 1) if getattr(tree, "has_contact_geoms", False) else (rng.choice((0, 1)),)
+        for jm in (0, 1):
+            for cn in cones:
+                add("opt jacobian %d" % jm, kind="set")
+                add("opt cone %d" % cn, kind="set")
+                add("efc full", kind="efc", role="base", jm=jm, cone=cn)
+        fdmode = (rng.choice((0, 1)), rng.choice(cones))      # the mode in which the perturbed positions are evaluated
+        add("opt jacobian %d" % fdmode[0], kind="set")
+        add("opt cone %d" % fdmode[1], kind="set")
     # ---- (c) perturbations along mj_integratePos: +-eps e_i for the chosen dofs, +-eps qvel for jacDot
     dofs = list(range(nv))
     if len(dofs) > maxfd:
@@ -157,6 +482,8 @@ def state_block(rng, tree, thorough, maxfd):
             add("kin", kind="rec", frames=True, role="pert", dof=i, sgn=sgn)
             add("com", kind="com", role="pert")
             add(ptsline, kind="pts", role="pert")
+            if ncons and i != "v":
+                add("efc pos", kind="efc", role="pert", fdmode=fdmode)
             if i == "v":
                 for b, r in pts:
                     add("jacpt %d %s" % (b, " ".join(map(fb, r))), kind="jacpt_pert", body=b, sgn=sgn)
@@ -345,6 +672,338 @@ def judge_jacobians(rec, info, dev, fails, stats):
                 chk("fd:jacDot-" + part, maxdiff(fd, c), 5 * FDTOL * vscale, "mj_jacDot differs from the central difference of mj_jac along qvel")
 
 
+def dof_ancestors(info, body):
+    """dofs that move `body` (the engine's definition of the body chain, from the model's index arrays)"""
+    weld, dofnum, dofadr, par = I(info, "body_weldid"), I(info, "body_dofnum"), I(info, "body_dofadr"), I(info, "dof_parentid")
+    b = weld[body]
+    out = set()
+    if dofnum[b] == 0:
+        return out
+    da = dofadr[b] + dofnum[b] - 1
+    while da >= 0:
+        out.add(da)
+        da = par[da]
+    return out
+
+
+def judge_functions(rec, info, dev, fails, stats):
+    """mj_jacDifPair / mj_mergeChain / mj_jacSum / mj_jacPointAxis / mj_jacDotSparse against mj_jac / mj_jacDot (which the
+    finite-difference part ties to the positions)"""
+    def chk(key, val, allowed, what):
+        if dev.see(key, val, allowed) > 1:
+            fails.append(("c07:" + key, what + " (deviation %.3g, allowed %.3g)" % (val, allowed)))
+    nv = len(rec["qvel"])
+    simple = I(info, "body_simple")
+    for mt, g in rec["jacdif"]:
+        NV = I(g, "NV")[0]
+        a1p, a1r, a2p, a2r = F(g, "a1p"), F(g, "a1r"), F(g, "a2p"), F(g, "a2r")
+        refp = [y - x for x, y in zip(a1p, a2p)]
+        refr = [y - x for x, y in zip(a1r, a2r)]
+        difp, difr = F(g, "difp"), F(g, "difr")
+        A1, A2 = dof_ancestors(info, mt["b1"]), dof_ancestors(info, mt["b2"])
+        issimple = bool(simple[mt["b1"]] and simple[mt["b2"]])
+        tag = "sparse" if mt["sp"] else "dense"
+        stats["jacdif:%s%s%s" % (tag, ":skipcommon" if mt["skip"] else "", ":simple" if issimple and mt["sp"] else "")] = \
+            stats.get("jacdif:%s%s%s" % (tag, ":skipcommon" if mt["skip"] else "", ":simple" if issimple and mt["sp"] else ""), 0) + 1
+        if not mt["sp"]:
+            if NV != nv or len(difp) != 3 * nv:
+                fails.append(("c07:jacDifPair-dense", "dense mj_jacDifPair returned NV=%d for nv=%d" % (NV, nv)))
+                continue
+            chk("jacDifPair-dense", max(maxdiff(difp, refp), maxdiff(difr, refr)), 0.0,
+                "dense mj_jacDifPair differs from mj_jac(body2, pos2) - mj_jac(body1, pos1)")
+            continue
+        chain, mchain = I(g, "chain"), I(g, "mchain")
+        want = (A1 ^ A2) if (mt["skip"] and not issimple) else (A1 | A2)
+        okchain = (chain == sorted(set(chain)) and chain == mchain and set(chain) == want and NV == len(chain))
+        if not okchain:
+            fails.append(("c07:mergeChain", "merged dof chain of bodies %d, %d (flg_skipcommon=%d) is %s (mj_mergeChain: %s), "
+                          "the dofs moving %s are %s" % (mt["b1"], mt["b2"], mt["skip"], chain, mchain,
+                                                         "exactly one of them" if mt["skip"] and not issimple else "either of them",
+                                                         sorted(want))))
+            continue
+        err = 0.0
+        for c, dof in enumerate(chain):
+            for r in range(3):
+                err = max(err, abs(difp[r * NV + c] - refp[r * nv + dof]), abs(difr[r * NV + c] - refr[r * nv + dof]))
+        chk("jacDifPair-sparse", err, 0.0, "sparse mj_jacDifPair differs on its chain from mj_jac(body2, pos2) - mj_jac(body1, pos1)")
+        # off the chain the dense difference must vanish: always without flg_skipcommon; with it, whenever the two points
+        # coincide (the documented use); for distinct points the flag drops w x (p2 - p1) of the shared dofs by design
+        if not mt["skip"] or mt["same"] or issimple:
+            off = max([abs(refp[r * nv + k]) + abs(refr[r * nv + k]) for k in range(nv) if k not in chain for r in range(3)] + [0.0])
+            chk("jacDifPair-sparse-offchain", off, 0.0,
+                "mj_jac difference is non-zero on a dof that the sparse mj_jacDifPair chain leaves out")
+    for mt, g in rec["jacsum"]:
+        NV, sp = I(g, "NV")[0], I(g, "sparse")[0]
+        if sp != mt["jm"]:
+            fails.append(("c07:jacSum", "mj_isSparse=%d after opt.jacobian=%d" % (sp, mt["jm"])))
+            continue
+        refp, refr = [0.0] * (3 * nv), [0.0] * (3 * nv)
+        mag = 1.0
+        for i, (b, w) in enumerate(mt["bw"]):
+            ap, ar = F(g, "a%dp" % i), F(g, "a%dr" % i)
+            refp = [x + w * y for x, y in zip(refp, ap)]
+            refr = [x + w * y for x, y in zip(refr, ar)]
+            mag += abs(w) * max([abs(x) for x in ap + ar] + [0.0])
+        sump, sumr = F(g, "sump"), F(g, "sumr")
+        chain = I(g, "chain") if sp else list(range(nv))
+        stats["jacsum:" + ("sparse" if sp else "dense")] = stats.get("jacsum:" + ("sparse" if sp else "dense"), 0) + 1
+        if NV != len(chain) or chain != sorted(set(chain)) or len(sump) != 3 * NV:
+            fails.append(("c07:jacSum", "mj_jacSum returned NV=%d with chain %s" % (NV, chain)))
+            continue
+        err = 0.0
+        for c, dof in enumerate(chain):
+            for r in range(3):
+                err = max(err, abs(sump[r * NV + c] - refp[r * nv + dof]))
+                if sumr:
+                    err = max(err, abs(sumr[r * NV + c] - refr[r * nv + dof]))
+        off = max([abs(refp[r * nv + k]) + (abs(refr[r * nv + k]) if sumr else 0.0) for k in range(nv) if k not in chain for r in range(3)] + [0.0])
+        chk("jacSum", max(err, off), 1e-13 * mag, "mj_jacSum differs from the weighted sum of mj_jac of its bodies")
+    for mt, g in rec["jacaxis"]:
+        jp, ja, refp, refr = F(g, "jp"), F(g, "ja"), F(g, "refp"), F(g, "refr")
+        ax = mt["axis"]
+        exp = [0.0] * (3 * nv)
+        for i in range(nv):
+            c = cross([refr[i], refr[nv + i], refr[2 * nv + i]], ax)
+            exp[i], exp[nv + i], exp[2 * nv + i] = c
+        chk("jacPointAxis", max(maxdiff(jp, refp), maxdiff(ja, exp)), 1e-14 * (1 + max(abs(x) for x in ax)),
+            "mj_jacPointAxis differs from (mj_jac translational part, rotational column x axis)")
+    for b, jd in rec["jacdot"].items():
+        if "chain" not in jd:
+            continue
+        chain = I(jd, "chain")
+        NV = len(chain)
+        sp_, sr_, dp, dr = F(jd, "sjacp"), F(jd, "sjacr"), F(jd, "jacp"), F(jd, "jacr")
+        err = 0.0
+        for c, dof in enumerate(chain):
+            for r in range(3):
+                err = max(err, abs(sp_[r * NV + c] - dp[r * nv + dof]), abs(sr_[r * NV + c] - dr[r * nv + dof]))
+        off = max([abs(dp[r * nv + k]) + abs(dr[r * nv + k]) for k in range(nv) if k not in chain for r in range(3)] + [0.0])
+        chk("jacDotSparse=jacDot", max(err, off), 0.0, "mj_jacDotSparse differs from mj_jacDot on the body chain (or mj_jacDot is non-zero off it)")
+
+
+def efc_rows(g, nv):
+    """signature -> row index; signature = (type, id, ordinal among the rows of that (type, id))"""
+    ty, ids = I(g, "type"), I(g, "id")
+    seen, sig = {}, {}
+    for r, (a, b) in enumerate(zip(ty, ids)):
+        k = seen.get((a, b), 0)
+        seen[(a, b)] = k + 1
+        sig[(a, b, k)] = r
+    return sig, seen
+
+
+def judge_efc(rec, info, dev, fails, stats):
+    """constraint rows: efc_J (dense and sparse, pyramidal and elliptic cones) is the derivative of efc_pos along
+    mj_integratePos for every position-type row; friction rows are the dof / tendon directions; contact rows are the contact
+    frame applied to the difference of the two bodies' point Jacobians; dense and sparse storage agree"""
+    def chk(key, val, allowed, what, extra=""):
+        if dev.see(key, val, allowed) > 1:
+            fails.append(("c07:" + key, what + " (deviation %.3g, allowed %.3g)%s" % (val, allowed, extra)))
+    nv = len(rec["qvel"])
+    xpos0 = F(rec["base"]["kin"], "xpos")
+    scale = 1.0 + max([abs(x) for x in xpos0] + [0.0])
+    gtype, gbody = I(info, "geom_type"), I(info, "geom_bodyid")
+    eqt, eqo = I(info, "eq_type"), I(info, "eq_objtype")
+    jtype = I(info, "jnt_type")
+    contact_types = (CN["CONTACT_FRICTIONLESS"], CN["CONTACT_PYRAMIDAL"], CN["CONTACT_ELLIPTIC"])
+
+    def rowname(g, r):
+        ty, i = I(g, "type")[r], I(g, "id")[r]
+        n = CN_NAME.get(ty, str(ty))
+        if ty == CN["EQUALITY"] and 0 <= i < len(eqt):
+            n += ":" + {0: "connect", 1: "weld", 2: "joint", 3: "tendon"}.get(eqt[i], str(eqt[i]))
+            if eqt[i] in (0, 1):
+                n += ":site" if eqo[i] == E("mjOBJ_SITE") else ":body"
+        if ty == CN["LIMIT_JOINT"] and 0 <= i < len(jtype):
+            n += ":" + {0: "free", 1: "ball", 2: "slide", 3: "hinge"}[jtype[i]]
+        return n.lower()
+    dumps = rec["efc_base"]
+    parsed = {}
+    for (jm, cone), g in sorted(dumps.items()):
+        tag = "%s,%s" % ("sparse" if jm else "dense", "elliptic" if cone else "pyramidal")
+        if I(g, "sparse")[0] != jm:
+            fails.append(("c07:efc-structure", "mj_isSparse=%d after opt.jacobian=%d" % (I(g, "sparse")[0], jm)))
+            continue
+        if any(I(g, "warn")):
+            stats["efc_skipped_buffer_full"] = stats.get("efc_skipped_buffer_full", 0) + 1
+            continue
+        ty, ids, pos, mar = I(g, "type"), I(g, "id"), F(g, "pos"), F(g, "margin")
+        nefc = len(ty)
+        J = F(g, "J")
+        ne, nf, nl, ncon = I(g, "counts")
+        order = [0 if t_ == CN["EQUALITY"] else 1 if t_ in (CN["FRICTION_DOF"], CN["FRICTION_TENDON"]) else
+                 2 if t_ in (CN["LIMIT_JOINT"], CN["LIMIT_TENDON"]) else 3 for t_ in ty]
+        if order != sorted(order) or order.count(0) != ne or order.count(1) != nf or order.count(2) != nl or len(J) != nefc * nv:
+            fails.append(("c07:efc-structure", "[%s] efc rows are not ordered equality/friction/limit/contact with counts ne=%d nf=%d nl=%d "
+                          "(types %s)" % (tag, ne, nf, nl, ty)))
+            continue
+        if jm:
+            rownnz, rowadr, colind, nJ = I(g, "rownnz"), I(g, "rowadr"), I(g, "colind"), I(g, "nJ")[0]
+            bad = None
+            adr = 0
+            for r in range(nefc):
+                cols = colind[rowadr[r]:rowadr[r] + rownnz[r]]
+                if rowadr[r] != adr or cols != sorted(set(cols)) or any(c < 0 or c >= nv for c in cols) or len(cols) != rownnz[r]:
+                    bad = "row %d (%s): rowadr %d (expected %d) rownnz %d colind %s" % (r, rowname(g, r), rowadr[r], adr, rownnz[r], cols)
+                    break
+                adr += rownnz[r]
+            if bad is None and adr != nJ:
+                bad = "sum of efc_J_rownnz = %d but nJ = %d" % (adr, nJ)
+            if bad:
+                fails.append(("c07:efc-structure", "[%s] sparse efc_J layout is inconsistent: %s" % (tag, bad)))
+                continue
+        sig, cnt = efc_rows(g, nv)
+        parsed[(jm, cone)] = dict(g=g, tag=tag, ty=ty, ids=ids, pos=pos, mar=mar, J=J, sig=sig, cnt=cnt, nefc=nefc)
+        stats["efc_dumps"] = stats.get("efc_dumps", 0) + 1
+        tenJ = F(g, "ten_J")
+        # ---- friction rows: the dof direction / the tendon Jacobian
+        for r in range(nefc):
+            row = J[r * nv:(r + 1) * nv]
+            if ty[r] == CN["FRICTION_DOF"]:
+                exp = [1.0 if k == ids[r] else 0.0 for k in range(nv)]
+                chk("efc:" + rowname(g, r), maxdiff(row, exp), 0.0, "[%s] dof friction row is not the unit vector of its dof" % tag)
+                stats["efcrow:" + rowname(g, r)] = stats.get("efcrow:" + rowname(g, r), 0) + 1
+            elif ty[r] == CN["FRICTION_TENDON"]:
+                chk("efc:" + rowname(g, r), maxdiff(row, tenJ[ids[r] * nv:(ids[r] + 1) * nv]), 0.0,
+                    "[%s] tendon friction row is not the tendon Jacobian" % tag)
+                stats["efcrow:" + rowname(g, r)] = stats.get("efcrow:" + rowname(g, r), 0) + 1
+        # ---- contact rows: contact frame x (point Jacobian of body 2 - point Jacobian of body 1)
+        cgeom, cdim, cefc, cexc, cdist = I(g, "con_geom"), I(g, "con_dim"), I(g, "con_efc"), I(g, "con_exclude"), F(g, "con_dist")
+        cframe, cfric, cmar = F(g, "con_frame"), F(g, "con_friction"), F(g, "con_margin")
+        normal_rows = {}
+        for i in range(ncon):
+            if cexc[i] or cefc[i] < 0 or ("cj%d" % i) not in g:
+                continue
+            cj = F(g, "cj%d" % i)
+            dp = [cj[6 * nv + k] - cj[k] for k in range(3 * nv)]
+            dr = [cj[9 * nv + k] - cj[3 * nv + k] for k in range(3 * nv)]
+            fr = cframe[9 * i:9 * i + 9]
+            dim = cdim[i]
+            R = []
+            for k in range(max(dim, 1)):
+                src, ax = (dp, fr[3 * k:3 * k + 3]) if k < 3 else (dr, fr[3 * (k - 3):3 * (k - 3) + 3])
+                R.append([sum(ax[c] * src[c * nv + d_] for c in range(3)) for d_ in range(nv)])
+            normal_rows[i] = R[0]
+            mu = cfric[5 * i:5 * i + 5]
+            a = cefc[i]
+            if dim == 1:
+                exp, et, epos, emar = [R[0]], CN["CONTACT_FRICTIONLESS"], [cdist[i]], [cmar[i]]
+            elif cone == 0:
+                exp, et, epos, emar = [], CN["CONTACT_PYRAMIDAL"], [cdist[i]] * (2 * (dim - 1)), [cmar[i]] * (2 * (dim - 1))
+                for k in range(1, dim):
+                    exp.append([x + mu[k - 1] * y for x, y in zip(R[0], R[k])])
+                    exp.append([x - mu[k - 1] * y for x, y in zip(R[0], R[k])])
+            else:
+                exp, et, epos, emar = R[:dim], CN["CONTACT_ELLIPTIC"], [cdist[i]] + [0.0] * (dim - 1), [cmar[i]] + [0.0] * (dim - 1)
+            if a + len(exp) > nefc or any(ty[a + k] != et or ids[a + k] != i for k in range(len(exp))):
+                fails.append(("c07:efc-structure", "[%s] contact %d (dim %d) does not own %d rows of type %s at efc_address %d"
+                              % (tag, i, dim, len(exp), CN_NAME[et], a)))
+                continue
+            mag = 1.0 + max([abs(x) for x in dp + dr] + [0.0]) * (1.0 + max(mu))
+            name = CN_NAME[et].lower() + ":condim%d" % dim
+            for k, e in enumerate(exp):
+                chk("efc:" + name, maxdiff(J[(a + k) * nv:(a + k + 1) * nv], e), 1e-13 * mag,
+                    "[%s] contact row %d of a condim-%d contact is not (contact frame) x (mj_jac(body2, pos) - mj_jac(body1, pos))"
+                    % (tag, k, dim), " geoms %d,%d bodies %d,%d" % (cgeom[2 * i], cgeom[2 * i + 1], gbody[cgeom[2 * i]], gbody[cgeom[2 * i + 1]]))
+                chk("efc-pos:" + name, max(abs(pos[a + k] - epos[k]), abs(mar[a + k] - emar[k])), 0.0,
+                    "[%s] efc_pos / efc_margin of a contact row is not the contact distance / margin" % tag)
+            stats["efcrow:" + name] = stats.get("efcrow:" + name, 0) + len(exp)
+        parsed[(jm, cone)]["normal_rows"] = normal_rows
+    # ---- dense and sparse storage hold the same rows
+    for cone in (0, 1):
+        a, b = parsed.get((0, cone)), parsed.get((1, cone))
+        if not a or not b:
+            continue
+        for sg in sorted(set(a["sig"]) | set(b["sig"])):
+            ra, rb = a["sig"].get(sg), b["sig"].get(sg)
+            if ra is None or rb is None:
+                # a row that only one storage mode keeps must be identically zero (the dense builder drops all-zero rows,
+                # the sparse builder drops empty chains)
+                p_, r_ = (a, ra) if rb is None else (b, rb)
+                z = max([abs(x) for x in p_["J"][r_ * nv:(r_ + 1) * nv]] + [0.0])
+                chk("efc:dense=sparse", z, 0.0, "a non-zero efc_J row (%s) exists only in %s mode" % (rowname(p_["g"], r_), p_["tag"]))
+                continue
+            rowa, rowb = a["J"][ra * nv:(ra + 1) * nv], b["J"][rb * nv:(rb + 1) * nv]
+            mag = 1.0 + max(abs(x) for x in rowa + rowb)
+            chk("efc:dense=sparse", max(maxdiff(rowa, rowb), abs(a["pos"][ra] - b["pos"][rb]), abs(a["mar"][ra] - b["mar"][rb])), 1e-13 * mag,
+                "dense and sparse efc_J / efc_pos / efc_margin differ in a row", " row type %s" % rowname(a["g"], ra))
+        stats["efc_dense_sparse_pairs"] = stats.get("efc_dense_sparse_pairs", 0) + 1
+    # ---- finite differences of efc_pos / ten_length / contact distance along mj_integratePos
+    fdm = rec.get("fdmode")
+    base = parsed.get(tuple(fdm)) if fdm else None
+    if base is None:
+        return
+    g0 = base["g"]
+    smooth = (E("mjGEOM_PLANE"), E("mjGEOM_SPHERE"), E("mjGEOM_CAPSULE"))
+
+    def pairs_of(g):
+        cg = I(g, "con_geom")
+        out = {}
+        for i in range(len(cg) // 2):
+            out.setdefault((cg[2 * i], cg[2 * i + 1]), []).append(i)
+        return out
+    p0 = pairs_of(g0)
+    for i, (pp, pm) in rec["pert"].items():
+        if i == "v" or "efc" not in pp or "efc" not in pm:
+            continue
+        gp, gm = pp["efc"], pm["efc"]
+        if any(I(gp, "warn")) or any(I(gm, "warn")):
+            continue
+        sp_, cp = efc_rows(gp, nv)
+        sm_, cm = efc_rows(gm, nv)
+        posp, posm = F(gp, "pos"), F(gm, "pos")
+        for sg, r in sorted(base["sig"].items()):
+            t_ = sg[0]
+            if t_ in contact_types or t_ in (CN["FRICTION_DOF"], CN["FRICTION_TENDON"]):
+                continue
+            k2 = (sg[0], sg[1])
+            if cp.get(k2) != base["cnt"][k2] or cm.get(k2) != base["cnt"][k2]:
+                stats["efc_fd_skipped_activation_change"] = stats.get("efc_fd_skipped_activation_change", 0) + 1
+                continue
+            a, b, c = posp[sp_[sg]], base["pos"][r], posm[sm_[sg]]
+            name = rowname(g0, r)
+            rows = [(q["tag"], q["J"][q["sig"][sg] * nv + i]) for q in parsed.values() if sg in q["sig"]]
+            mag = scale * max([1.0, abs(b)] + [abs(x) for _, x in rows])
+            if abs((a - b) - (b - c)) / EPS > 1e-3 * mag:
+                stats["efc_fd_skipped_kink"] = stats.get("efc_fd_skipped_kink", 0) + 1
+                continue
+            fd = (a - c) / (2 * EPS)
+            for tag, x in rows:
+                chk("fd:efc:" + name, abs(fd - x), FDTOL * mag,
+                    "[%s] efc_J differs from the central difference of efc_pos along mj_integratePos" % tag,
+                    " row type %s, efc_id %d, row %d of it, dof %d: efc_J %.9g, finite difference %.9g" % (name, sg[1], sg[2], i, x, fd))
+            stats["efcfd:" + name] = stats.get("efcfd:" + name, 0) + 1
+        # tendon Jacobian
+        tl0, tlp, tlm, tJ = F(g0, "ten_length"), F(gp, "ten_length"), F(gm, "ten_length"), F(g0, "ten_J")
+        for t_ in range(len(tl0)):
+            a, b, c, x = tlp[t_], tl0[t_], tlm[t_], tJ[t_ * nv + i]
+            mag = scale * max(1.0, abs(x))
+            if abs((a - b) - (b - c)) / EPS > 1e-3 * mag:
+                stats["efc_fd_skipped_kink"] = stats.get("efc_fd_skipped_kink", 0) + 1
+                continue
+            chk("fd:ten_J", abs((a - c) / (2 * EPS) - x), FDTOL * mag, "ten_J differs from the central difference of ten_length",
+                " tendon %d dof %d: ten_J %.9g, finite difference %.9g" % (t_, i, x, (a - c) / (2 * EPS)))
+            stats["efcfd:ten_J"] = stats.get("efcfd:ten_J", 0) + 1
+        # contact distance (geometries whose distance function is smooth; pairs with exactly one contact)
+        pp_, pm_ = pairs_of(gp), pairs_of(gm)
+        dp_, dm_, d0 = F(gp, "con_dist"), F(gm, "con_dist"), F(g0, "con_dist")
+        for pr, lst in p0.items():
+            if len(lst) != 1 or len(pp_.get(pr, [])) != 1 or len(pm_.get(pr, [])) != 1:
+                continue
+            if gtype[pr[0]] not in smooth or gtype[pr[1]] not in smooth or lst[0] not in base.get("normal_rows", {}):
+                continue
+            a, b, c = dp_[pp_[pr][0]], d0[lst[0]], dm_[pm_[pr][0]]
+            x = base["normal_rows"][lst[0]][i]
+            mag = scale * max(1.0, abs(x))
+            if abs((a - b) - (b - c)) / EPS > 1e-3 * mag:
+                stats["efc_fd_skipped_kink"] = stats.get("efc_fd_skipped_kink", 0) + 1
+                continue
+            chk("fd:contact-normal", abs((a - c) / (2 * EPS) - x), FDTOL * mag,
+                "the contact normal row differs from the central difference of the contact distance",
+                " geoms %d,%d dof %d: row %.9g, finite difference %.9g" % (pr[0], pr[1], i, x, (a - c) / (2 * EPS)))
+            stats["efcfd:contact-normal"] = stats.get("efcfd:contact-normal", 0) + 1
+
+
 def judge_diffint(line_meta, out, info, dev, fails):
     def chk(key, val, allowed, what):
         if dev.see(key, val, allowed) > 1:
@@ -405,16 +1064,24 @@ def run_stream(ctx, impl, drv, trees, nstates, dev, stats, maxfd, max_report=6):
                       "replay": {"model": trees[owner[idx]].text(), "line": lines[idx][:400], "stderr": err[-300:]}})
         return found, 1, 0
 
+    perkey = {}
+
     def report(i, fs, extra=None):
+        # at most `max_report` reports overall but always the first two of every distinct key, so that a recorded (known)
+        # finding that fires on many states cannot crowd out a new one
         nonlocal nfail
         nfail += 1
-        if len(found) < max_report:
-            for key, what in fs[:3]:
-                rp = {"model": trees[owner[i]].text(), "op_index_in_stream": i, "line": lines[i][:600],
-                      "how": "feed `model <model>` and the recorded `set` / op lines to the c07_oracle harness built by checks/c07.py"}
-                if extra:
-                    rp.update(extra)
-                found.append({"key": key, "what": what, "replay": rp})
+        seen_here = set()
+        for key, what in fs:
+            if key in seen_here or perkey.get(key, 0) >= 2 or (len(found) >= max_report and perkey.get(key, 0) >= 1):
+                continue
+            seen_here.add(key)
+            perkey[key] = perkey.get(key, 0) + 1
+            rp = {"model": trees[owner[i]].text(), "op_index_in_stream": i, "line": lines[i][:600],
+                  "how": "feed `model <model>` and the recorded `set` / op lines to the c07_oracle harness built by checks/c07.py"}
+            if extra:
+                rp.update(extra)
+            found.append({"key": key, "what": what, "replay": rp})
     # ---- correspondence records
     recs = []
     for i, (l, o, mt) in enumerate(zip(lines, outs, meta)):
@@ -455,12 +1122,18 @@ def run_stream(ctx, impl, drv, trees, nstates, dev, stats, maxfd, max_report=6):
         if cur and cur.get("complete"):
             fs = []
             judge_jacobians(cur, info, dev, fs, stats)
+            judge_functions(cur, info, dev, fs, stats)
+            if cur["efc_base"]:
+                judge_efc(cur, info, dev, fs, stats)
+                stats["constraint_states"] = stats.get("constraint_states", 0) + 1
             stats["jacobian_states"] = stats.get("jacobian_states", 0) + 1
             if fs:
                 report(cur["line"], fs, {"qpos": cur["qpos"], "qvel": cur["qvel"], "body_points": cur["pts"],
                                          "recipe": "set qpos; set qvel; kin; com; jacs; vel; `jacdot b r0 r1 r2` for (b, r) in body_points  "
                                                    "versus  [`jacpt b r` after (set qpos; integ +1e-6 qvel; kin; com)  minus  the same "
-                                                   "with -1e-6] / 2e-6;  per-dof Jacobian columns likewise with `integ +-1e-6 e_i`"})
+                                                   "with -1e-6] / 2e-6;  per-dof Jacobian columns likewise with `integ +-1e-6 e_i`;  constraint rows: "
+                                                   "`opt jacobian 0|1` (dense|sparse), `opt cone 0|1` (pyramidal|elliptic), `efc full` at qpos "
+                                                   "versus [`efc pos` after (set qpos; integ +1e-6 e_i) minus the same with -1e-6] / 2e-6"})
         cur = None
     for i, (l, o, mt) in enumerate(zip(lines, outs, meta)):
         k = mt["kind"]
@@ -482,7 +1155,8 @@ def run_stream(ctx, impl, drv, trees, nstates, dev, stats, maxfd, max_report=6):
                 flush(i)
                 cur = {"line": i, "qpos": mt["base"]["qpos"], "qvel": mt["base"]["qvel"], "pts": mt["base"]["pts"],
                        "base": {"kin": fk}, "pert": {},
-                       "jacpt": {}, "jacsparse": [], "jacdot": {}, "jacpt_pert": {}, "complete": False}
+                       "jacpt": {}, "jacsparse": [], "jacdot": {}, "jacpt_pert": {}, "complete": False,
+                       "efc_base": {}, "jacdif": [], "jacsum": [], "jacaxis": [], "fdmode": None}
             elif mt.get("role") == "pert" and cur is not None:
                 cur["_p"] = {"kin": fk}
                 cur["_pk"] = (mt["dof"], mt["sgn"])
@@ -512,24 +1186,43 @@ def run_stream(ctx, impl, drv, trees, nstates, dev, stats, maxfd, max_report=6):
             cur["vel"] = parse_groups(o.split()[1:])
         elif k == "jacdot" and cur is not None and o.startswith("jacdot"):
             cur["jacdot"][mt["body"]] = parse_groups(o.split()[1:])
+        elif k == "efc" and cur is not None and o.startswith("efc "):
+            g = parse_groups(o.split()[1:])
+            if mt["role"] == "base":
+                cur["efc_base"][(mt["jm"], mt["cone"])] = g
+            elif "_p" in cur:
+                cur["_p"]["efc"] = g
+                cur["fdmode"] = mt["fdmode"]
+        elif k in ("jacdif", "jacsum", "jacaxis") and cur is not None and o.startswith(k + " "):
+            cur[k].append((mt, parse_groups(o.split()[1:])))
         elif k == "diffint" and o.startswith("diffint"):
             fs = []
             judge_diffint(mt, o, info, dev, fs)
             stats["diffint"] = stats.get("diffint", 0) + 1
             if fs:
                 report(i, fs, {"qpos": mt["qpos"], "v": mt["v"], "dt": mt["dt"]})
-        elif k in ("com", "pts", "jacs", "jacpt", "jacsparse", "vel", "jacdot", "diffint", "jacpt_pert") and o.startswith(("error", "bad-op")):
+        elif k in ("com", "pts", "jacs", "jacpt", "jacsparse", "vel", "jacdot", "diffint", "jacpt_pert", "efc", "jacdif", "jacsum",
+                   "jacaxis") and o.startswith(("error", "bad-op")):
             report(i, [("c07:engine-error", "engine refused op `%s`: %s" % (l.split()[0], o[:200]))])
     flush(len(lines))
     return found, nfail, len(recs)
 
 
-def gen_trees(ctx, n, maxbody, maxdof):
+def gen_trees(ctx, n, maxbody, maxdof, cons=0.75, chist=None):
     trees, hist = [], {}
+    chist = {} if chist is None else chist
     for k in range(n):
         r = ctx.rng.random()
         mb = maxbody if r < 0.6 else max(2, maxbody // 3)
-        t = G.gen_tree(ctx.rng, maxbody=mb, maxdof=maxdof, frames=True, tendons=False, p={"actarm": 0.0})
+        prof = {"actarm": 0.0}
+        if ctx.rng.random() < 0.3:
+            # one moving root with branching below it: any two bodies that are not in line share moving ancestors
+            prof.update({"top": 0.0, "chain": 0.35, "static": 0.0, "mocap": 0.0})
+            mb = max(mb, 4)
+            hist["profile:single-root-branching"] = hist.get("profile:single-root-branching", 0) + 1
+        t = G.gen_tree(ctx.rng, maxbody=mb, maxdof=maxdof, frames=True, tendons=False, p=prof)
+        if ctx.rng.random() < cons:
+            add_constraints(ctx.rng, t, chist)
         trees.append(t)
         b = "nv=0" if t.nv == 0 else "nv<=5" if t.nv <= 5 else "nv<=15" if t.nv <= 15 else "nv<=30" if t.nv <= 30 else "nv>30"
         hist[b] = hist.get(b, 0) + 1
@@ -545,9 +1238,13 @@ def gen_trees(ctx, n, maxbody, maxdof):
 def run(ctx):
     ctx.rule = ("seeded random kinematic trees (chains and wide branching, free/ball/slide/hinge joints, up to 4 joints per body, "
                 "qpos0 offsets, mocap bodies, explicit and geom-derived inertial frames, geoms / sites / cameras with all sameframe "
-                "cases) x random configurations (unit and non-unit quaternions for the FK tie, unit for the finite differences); a "
+                "cases; 75% of the trees completed with equalities (connect / weld body+site, joint, tendon; body pairs chosen by "
+                "chain relation: shared moving ancestor, ancestor-descendant, different trees, one side fixed), joint / tendon "
+                "limits, friction loss, fixed / spatial tendons, colliding primitive geoms of every condim and a plane; 30% of the "
+                "trees are single-rooted with branching) x random configurations (unit and non-unit quaternions for the FK tie, unit for the finite differences); a "
                 "correspondence case is distinct by its full record; the oracle perturbs every chosen dof by +-1e-6 along "
-                "mj_integratePos; non-trivial = nbody >= 2")
+                "mj_integratePos and the constraint rows are built in dense and sparse storage, pyramidal and elliptic cone; "
+                "non-trivial = nbody >= 2")
     thorough = ctx.tier == "thorough"
     m = kernelval.regen(ctx)
     ctx.lean_props(THEOREMS)
@@ -555,7 +1252,10 @@ def run(ctx):
     ctx.extra["kernel_body_sha256"] = {n: m.get("kernels", {}).get(n, {}).get("sha256", "")[:16] for n in KERNELS}
     # enumerator values hard-wired in the model / driver
     enums = {"mjJNT_FREE": 0, "mjJNT_BALL": 1, "mjJNT_SLIDE": 2, "mjJNT_HINGE": 3, "mjSAMEFRAME_NONE": 0, "mjSAMEFRAME_BODY": 1,
-             "mjSAMEFRAME_INERTIA": 2, "mjSAMEFRAME_BODYROT": 3, "mjSAMEFRAME_INERTIAROT": 4, "mjCAMLIGHT_FIXED": 0}
+             "mjSAMEFRAME_INERTIA": 2, "mjSAMEFRAME_BODYROT": 3, "mjSAMEFRAME_INERTIAROT": 4, "mjCAMLIGHT_FIXED": 0,
+             # used by the oracle when naming rows / switching modes at run time
+             "mjEQ_CONNECT": 0, "mjEQ_WELD": 1, "mjEQ_JOINT": 2, "mjEQ_TENDON": 3, "mjJAC_DENSE": 0, "mjJAC_SPARSE": 1,
+             "mjCONE_PYRAMIDAL": 0, "mjCONE_ELLIPTIC": 1}
     try:
         wrong = {k: E(k) for k, v in enums.items() if E(k) != v}
     except KeyError as e:
@@ -570,8 +1270,10 @@ def run(ctx):
         rp = json.load(open(ctx.replay))
         print("replay inputs: %s" % json.dumps([f.get("replay", {}) for f in rp.get("failures", [])])[:3000])
     ntrees = 500 if thorough else 40
-    trees, hist = gen_trees(ctx, ntrees, 12 if thorough else 8, 36 if thorough else 24)
+    chist = {}
+    trees, hist = gen_trees(ctx, ntrees, 12 if thorough else 8, 36 if thorough else 24, chist=chist)
     ctx.extra["tree_distribution"] = hist
+    ctx.extra["constraint_element_distribution"] = dict(sorted(chist.items()))
     found, nfail, nrec = run_stream(ctx, impl, drv, trees, 2 if thorough else 1, dev, stats, 40 if thorough else 8)
     for f in found:
         ctx.oracle_failure(f["key"], f["what"], f["replay"])
@@ -582,12 +1284,17 @@ def run(ctx):
 
     def directed(c):
         d2, s2 = G.Dev(), {}
+        last_known = None
         for rnd in range(3):
             ts, _ = gen_trees(c, 60, 10, 30)
-            fnd, _, _ = run_stream(c, impl, None, ts, 1, d2, s2, 12, max_report=1)
+            fnd, _, _ = run_stream(c, impl, None, ts, 1, d2, s2, 12, max_report=6)
+            knownkeys = {k["key"] for k in c.known()}
+            new_ = [f for f in fnd if f["key"] not in knownkeys]
+            if new_:
+                return new_[0]
             if fnd:
-                return fnd[0]
-        return None
+                last_known = fnd[0]
+        return last_known
     ctx.directed_search = directed
     if thorough:
         ctx.leanchecker(["MjProof.Props.C07"])
